@@ -3,8 +3,8 @@
 
   `Extracted/GlueKdf.lean` is regenerated from /repo/src/hkdf.rs, /repo/src/pbkdf2.rs and /repo/src/scrypt.rs on every run by
   tools/ktx_glue_kdf.py (specs: tools/kernels/glue_kdf.py): a statement-by-statement translation of
-      hkdf_extract, hkdf_expand (the `chunks_mut(os)` loop, the one-byte counter with `checked_add`, `if n != 1`, the copy of a
-      partial last block),
+      hkdf_extract, hkdf_expand (`assert!(prk.len() >= digest.output_bytes())`, the `chunks_mut(os)` loop, the one-byte counter
+      with `checked_add`, `if n != 1`, the copy of a partial last block),
       calculate_block (first iteration, `if c > 1`, `for _ in 2..c`, the xor zips), pbkdf2 (`assert!(c > 0)`, the scratch vector
       allocated once, the `chunks_mut(os)` loop with the u32 block index, full / partial blocks),
       xor (three-way zip), scrypt_block_mix (`left_over`, the `chunks(64).enumerate()` loop, the even/odd output position),
@@ -49,7 +49,8 @@ theorem hkdf_expand_loop_src_eq_model {δ : Type} (D : DigestModel δ) (info : B
     (hkdf_expand_loop1_src D info cs mac t n acc).map (·.2.2.2) = hkdf_expand_loop D info (cs.map List.length) mac t n acc :=
   hkdf_expand_loop1_eq D info cs mac t n acc
 
-/-- `hkdf_expand` for every `okm` buffer (any length, any contents) -/
+/-- `hkdf_expand` for every PRK (incl. the refusal `assert!(prk.len() >= digest.output_bytes())` of a short one, read after
+    `digest.reset()`) and every `okm` buffer (any length, any contents) -/
 theorem hkdf_expand_src_eq_model {δ : Type} (D : DigestModel δ) (digest : δ) (prk info okm : Bytes) :
     hkdf_expand_src D digest prk info okm = hkdf_expand D digest prk info okm.length := hkdf_expand_src_eq D digest prk info okm
 
